@@ -1079,9 +1079,38 @@ def run_lower_total(P, R, mp, log_dir):
         per_arm[arm] = {"ok_paths": oks, "err_paths": errs, "s": round(time.time() - ta, 1)}
         if oks == 0 and errs > 0:
             refused.append((arm, own_errs[0] if own_errs else "every path returns an error"))
+    # ---- the same question for every expression kind
+    fe = tc_props.find_fn(P, "lower_expr")
+    for k, arm in enumerate(mp.variants(R, "incan_syntax::ast::Expr")):
+        ta = time.time()
+        ex = mirx.make_executor(P, R, max_paths=200000)
+        ex.opaque_calls = mirx.slice_opaque
+        ex.model_sequences = True
+        ex.seq_bound = 1
+        ex.recursion_bound = 0
+        ex.tolerate_unsupported = True
+        ex.max_steps = 4000
+        ex.summarize = tc_props.SUMMARIZE + [r"::lower_\w+$", r"HashMap::<.*>::\w+(::<.*>)?$", r"HashSet::<.*>::\w+(::<.*>)?$", r"IrSpan as .*Default>::default$",
+                                             r"fmt::rt::Argument", r"Arguments::<.*>::new", r"must_use", r"::lookup_var$", r"Clone>::clone$", r"::select_\w+$", r"from_str$", r"PartialEq"]
+        selfv = ex.sym_value("AstLowering", "self")
+        e = ex.sym_value("incan_syntax::ast::Expr", "e")
+        st0 = symex.State()
+        st0.facts[e.tag().term] = ("eq", k)
+        st0.pc.append(f"(= {e.tag().term} {k})")
+        try:
+            outs = ex.run(fe, [selfv, e], state=st0)
+        except Exception as x:
+            problems.append(f"Expr::{arm}: {str(x)[:80]}")
+            continue
+        encoded |= set(ex.encoded)
+        vals = [mirx.show(o.value, ex, o.state) for o in outs if o.kind == "return"]
+        oks, errs = sum(1 for v in vals if v.startswith("Result::Ok")), [v for v in vals if v.startswith("Result::Err")]
+        per_arm["Expr::" + arm] = {"ok_paths": oks, "err_paths": len(errs), "s": round(time.time() - ta, 1)}
+        if oks == 0 and errs:
+            refused.append(("Expr::" + arm, errs[0][:140]))
     r = {"id": "X-lower_total", "engine": "E2-X mirsmt",
-         "statement": "every statement kind of the grammar has a lowering: for each variant of ast::Statement some path of AstLowering's statement arm returns Ok when the "
-                      "lowering of its parts succeeds - a kind that is refused unconditionally is a program the checker accepts and code generation cannot build",
+         "statement": "every statement and expression kind of the grammar has a lowering: for each variant of ast::Statement and ast::Expr some path of AstLowering's arm "
+                      "returns Ok when the lowering of its parts succeeds - a kind that is refused unconditionally is a program the checker accepts and code generation cannot build",
          "bound": "each arm of the statement lowering with the lowering of sub-terms, scope and registry lookups as arbitrary (succeeding or failing) answers; lists of 0..=1",
          "functions_encoded": sorted(x + " (MIR)" for x in encoded), "paths": sum(v["ok_paths"] + v["err_paths"] for v in per_arm.values()),
          "compositions": per_arm, "not_executed": problems[:6]}
